@@ -1,0 +1,95 @@
+//go:build verif
+
+// Round 6, area L: the statsd client nsqd's statsdLoop pushes its numbers through (C13 anchors nsqd/statsd.go), checked by nsqvc.
+// Comment-only file. Assumed library contracts: fmt.Sprintf / fmt.Fprintf inside this package (lib/trusted/r6L.spec).
+//
+// The line written for one metric is exactly "<prefix><stat>:<value>|<type>\n" (r6LStatsdLine), type c for Incr / Decr, ms for Timing,
+// g for Gauge, Decr negates - PROVIDED neither the prefix nor the stat name contains a '%' (r6LNoVerb): the client builds a FORMAT from
+// them, so a '%' inside would be interpreted by fmt (stated, not hidden: nsqd's topic / channel names cannot contain one, the configured
+// --statsd-prefix can). One line = one Write on the client's writer, whose error is returned.
+
+package statsd
+
+// Call-level records for callers (statsdLoop): every metric handed to a client, as a key r6LMetric(client, type, stat, value).
+//@ fn r6LMetric(c *Client, typ string, stat string, value int64) int
+//@ ghost r6LMetricCalls int
+//@ ghost r6LMetricSet set[int]
+//@ ghost r6LMetricLast int
+//@ ghostgroup r6LMetricCalls, r6LMetricSet, r6LMetricLast
+
+//@ modset r6LStatsdSendFrame := r6LStatsdLines, wN, wOut, wCalls, wErrs, wLastErr, wForeign, writers.SpreadWriter.buf, elems([]byte)
+
+//@ pred r6LOneLineSent(c *Client) := r6LStatsdLines == old(r6LStatsdLines) + 1 && r6LStatsdLastW == c.w && wCalls == old(wCalls) + 1 &&
+//@      r6LStatsdTexts == setadd(old(r6LStatsdTexts), r6LStatsdLastText)
+//@ pred r6LBacklogStep() := forall q *github.com/nsqio/nsq/internal/writers.SpreadWriter :: {q.buf} old(len(q.buf)) <= len(q.buf) && len(q.buf) <= old(len(q.buf)) + 2 && len(q.buf) < 1000000000
+
+//@ func NewClient(w io.Writer, prefix string) *Client
+//@   props C13
+//@   nochan
+//@   ensures[client-as-given] result != nil && fresh(result) && result.w == w && result.prefix == prefix
+//@   modifies
+
+//@ func (c *Client) send(stat string, format string, value int64) error
+//@   props C13
+//@   nochan
+//@   requires[client] c != nil && c.w != nil
+//@   ensures[one-line-to-the-writer] r6LOneLineSent(c)
+//@   ensures[line-counter] format == "%d|c" && r6LNoVerb(c.prefix) && r6LNoVerb(stat) ==> r6LStatsdLastText == r6LStatsdLine(c.prefix, stat, value, "c")
+//@   ensures[line-timing] format == "%d|ms" && r6LNoVerb(c.prefix) && r6LNoVerb(stat) ==> r6LStatsdLastText == r6LStatsdLine(c.prefix, stat, value, "ms")
+//@   ensures[line-gauge] format == "%d|g" && r6LNoVerb(c.prefix) && r6LNoVerb(stat) ==> r6LStatsdLastText == r6LStatsdLine(c.prefix, stat, value, "g")
+//@   ensures[writer-error-returned] result == r6LStatsdLastErr
+//@   ensures[backlog] r6LBacklogStep()
+//@   modifies r6LStatsdSendFrame
+
+//@ func (c *Client) Incr(stat string, count int64) error
+//@   props C13
+//@   nochan
+//@   requires[client] c != nil && c.w != nil
+//@   ensures[one-line-to-the-writer] r6LOneLineSent(c)
+//@   ensures[exact-line] r6LNoVerb(c.prefix) && r6LNoVerb(stat) ==> r6LStatsdLastText == r6LStatsdLine(c.prefix, stat, count, "c")
+//@   ensures[writer-error-returned] result == r6LStatsdLastErr
+//@   ensures[backlog] r6LBacklogStep()
+//@   modifies r6LStatsdSendFrame, r6LMetricCalls
+//@   onreturn r6LMetricCalls := r6LMetricCalls + 1
+//@   onreturn r6LMetricSet := setadd(r6LMetricSet, r6LMetric(c, "c", stat, count))
+//@   onreturn r6LMetricLast := r6LMetric(c, "c", stat, count)
+
+// Decr sends the NEGATED count as a counter (in int64 arithmetic: -MinInt64 wraps to itself, as in the code).
+//@ func (c *Client) Decr(stat string, count int64) error
+//@   props C13
+//@   nochan
+//@   requires[client] c != nil && c.w != nil
+//@   ensures[one-line-to-the-writer] r6LOneLineSent(c)
+//@   ensures[exact-line] r6LNoVerb(c.prefix) && r6LNoVerb(stat) && count > -9223372036854775808 ==> r6LStatsdLastText == r6LStatsdLine(c.prefix, stat, 0 - count, "c")
+//@   ensures[writer-error-returned] result == r6LStatsdLastErr
+//@   ensures[backlog] r6LBacklogStep()
+//@   modifies r6LStatsdSendFrame, r6LMetricCalls
+//@   onreturn r6LMetricCalls := r6LMetricCalls + 1
+//@   onreturn r6LMetricSet := setadd(r6LMetricSet, r6LMetric(c, "c", stat, count > -9223372036854775808 ? 0 - count : count))
+//@   onreturn r6LMetricLast := r6LMetric(c, "c", stat, count > -9223372036854775808 ? 0 - count : count)
+
+//@ func (c *Client) Timing(stat string, delta int64) error
+//@   props C13
+//@   nochan
+//@   requires[client] c != nil && c.w != nil
+//@   ensures[one-line-to-the-writer] r6LOneLineSent(c)
+//@   ensures[exact-line] r6LNoVerb(c.prefix) && r6LNoVerb(stat) ==> r6LStatsdLastText == r6LStatsdLine(c.prefix, stat, delta, "ms")
+//@   ensures[writer-error-returned] result == r6LStatsdLastErr
+//@   ensures[backlog] r6LBacklogStep()
+//@   modifies r6LStatsdSendFrame, r6LMetricCalls
+//@   onreturn r6LMetricCalls := r6LMetricCalls + 1
+//@   onreturn r6LMetricSet := setadd(r6LMetricSet, r6LMetric(c, "ms", stat, delta))
+//@   onreturn r6LMetricLast := r6LMetric(c, "ms", stat, delta)
+
+//@ func (c *Client) Gauge(stat string, value int64) error
+//@   props C13
+//@   nochan
+//@   requires[client] c != nil && c.w != nil
+//@   ensures[one-line-to-the-writer] r6LOneLineSent(c)
+//@   ensures[exact-line] r6LNoVerb(c.prefix) && r6LNoVerb(stat) ==> r6LStatsdLastText == r6LStatsdLine(c.prefix, stat, value, "g")
+//@   ensures[writer-error-returned] result == r6LStatsdLastErr
+//@   ensures[backlog] r6LBacklogStep()
+//@   modifies r6LStatsdSendFrame, r6LMetricCalls
+//@   onreturn r6LMetricCalls := r6LMetricCalls + 1
+//@   onreturn r6LMetricSet := setadd(r6LMetricSet, r6LMetric(c, "g", stat, value))
+//@   onreturn r6LMetricLast := r6LMetric(c, "g", stat, value)
